@@ -155,3 +155,285 @@ Lemma wf_cases c k : wf c -> haskey c k -> resolved c k \/ pending c k.
 Proof.
   intros Hwf Hk. destruct (Hwf k) as [[f|] Ho]; [left; exists f; exact Ho|right; split; assumption].
 Qed.
+
+(** ** the caches met later: entries survive or their key is resolved, resolved keys stay resolved,
+    no new pending key appears *)
+Definition ext (c c' : cache) : Prop :=
+  (forall k, resolved c k -> resolved c' k) /\
+  (forall k, pending c' k -> pending c k) /\
+  (forall k v, lookup c k = Some v -> lookup c' k = Some v \/ resolved c' k).
+
+Lemma ext_refl c : ext c c.
+Proof. split; [|split]; auto. Qed.
+
+Lemma ext_trans a b c : ext a b -> ext b c -> ext a c.
+Proof.
+  intros (A1 & A2 & A3) (B1 & B2 & B3). split; [|split].
+  - auto.
+  - auto.
+  - intros k v Hl. destruct (A3 _ _ Hl) as [H|H]; [apply B3; exact H|right; apply B1; exact H].
+Qed.
+
+Lemma ext_haskey c c' k : ext c c' -> haskey c k -> haskey c' k.
+Proof.
+  intros (_ & _ & E3) [v Hv]. destruct (E3 _ _ Hv) as [H|H]; [exists v; exact H|apply resolved_haskey; exact H].
+Qed.
+
+(** ** [reach c x y]: [y] is on the pointer chain that starts at [x] *)
+Inductive reach (c : cache) : expr -> expr -> Prop :=
+| reach_refl x : reach c x x
+| reach_step x v y : lookup c x = Some v -> v <> x -> reach c v y -> reach c x y.
+
+Lemma reach_chases c x y o : reach c x y -> chases c y o -> chases c x o.
+Proof. induction 1 as [x|x v y Hl Hne _ IH]; intros Ho; [exact Ho|]. eapply chases_step; eauto. Qed.
+
+(** ** the three kinds of links *)
+Definition desc (k v : expr) : Prop :=
+  forall m r, simp m k = SOk r -> exists m', (m' < m)%nat /\ simp m' v = SOk r.
+
+Definition linked (c : cache) : Prop :=
+  forall k v, lookup c k = Some v -> v = k \/ lookup c v = Some v \/ desc k v.
+
+(** along a chain that does not stop at a self-mapped key the needed fuel does not grow *)
+Lemma reach_desc c x y : linked c -> reach c x y -> lookup c y <> Some y ->
+  forall m r, simp m x = SOk r -> simp m y = SOk r.
+Proof.
+  intros Hlk Hr. induction Hr as [x|x v y Hl Hne Hr IH]; intros Hy m r Hs; [exact Hs|].
+  destruct (Hlk _ _ Hl) as [H|[H|H]].
+  - contradiction.
+  - exfalso. inversion Hr as [z|z v' y' Hl' Hne' _]; subst.
+    + contradiction.
+    + rewrite H in Hl'. inversion Hl'. congruence.
+  - destruct (H _ _ Hs) as (m' & Hm' & Hs'). apply (simp_fuel_mono _ _ _ (IH Hy _ _ Hs')). lia.
+Qed.
+
+(** ** the invariant of the loop between two quiescent points *)
+Definition ok (c : cache) : Prop := cache_inv c /\ wf c /\ linked c.
+
+(** pending keys cannot be simplified with fuel [n] *)
+Definition nopend (n : nat) (c : cache) : Prop := forall k, pending c k -> forall r, simp n k <> SOk r.
+
+Lemma nopend_le n m c : (m <= n)%nat -> nopend n c -> nopend m c.
+Proof. intros Hm H k Hk r Hs. apply (H k Hk r). apply (simp_fuel_mono _ _ _ Hs). exact Hm. Qed.
+
+Lemma nopend_ext n c c' : ext c c' -> nopend n c -> nopend n c'.
+Proof. intros (_ & E2 & _) H k Hk. apply H. apply E2. exact Hk. Qed.
+
+(** ** one write [e |-> v] *)
+Lemma lookup_update_same c e v : lookup (update c e v) e = Some v.
+Proof. rewrite lookup_update, expr_eqb_refl. reflexivity. Qed.
+
+Lemma lookup_update_other c e v k : k <> e -> lookup (update c e v) k = lookup c k.
+Proof. intros H. rewrite lookup_update, eqb_neq by congruence. reflexivity. Qed.
+
+Lemma expr_eq_dec (a b : expr) : a = b \/ a <> b.
+Proof. destruct (expr_eqb a b) eqn:E; [left; apply expr_eqb_eq; exact E|right; apply eqb_false_neq; exact E]. Qed.
+
+Lemma wf_update c e v :
+  wf c -> (v = e \/ exists o, chases (update c e v) v o) -> wf (update c e v).
+Proof.
+  intros Hwf Hv k. destruct (Hwf k) as [o [m Hm]]. revert k o Hm.
+  induction m as [|m IH]; intros k o Hm; cbn [chase] in Hm; [discriminate|].
+  destruct (expr_eq_dec k e) as [->|Hke].
+  - destruct Hv as [->|[o' Ho']].
+    + eexists. apply chases_self. apply lookup_update_same.
+    + destruct (expr_eq_dec v e) as [->|Hve].
+      * eexists. apply chases_self. apply lookup_update_same.
+      * exists o'. eapply chases_step; [apply lookup_update_same|exact Hve|exact Ho'].
+  - destruct (lookup c k) as [w|] eqn:El.
+    + destruct (expr_eqb k w) eqn:E.
+      * apply expr_eqb_eq in E. subst w. eexists. apply chases_self. rewrite lookup_update_other; assumption.
+      * destruct (IH _ _ Hm) as [o' Ho']. exists o'.
+        eapply chases_step; [rewrite lookup_update_other; eassumption|apply not_eq_sym; apply eqb_false_neq; exact E|exact Ho'].
+    + eexists. apply chases_nokey. rewrite lookup_update_other; assumption.
+Qed.
+
+(** if [e] is resolved in a later cache [c'] of [update c e v], then [c'] is a later cache of [c] *)
+Lemma ext_via_update c e v c' :
+  wf c -> ext (update c e v) c' -> resolved c' e -> ext c c'.
+Proof.
+  intros Hwf (E1 & E2 & E3) He.
+  assert (R : forall k, resolved c k -> resolved c' k).
+  { intros k [f [m Hm]]. revert k Hm. induction m as [|m IH]; intros k Hm; cbn [chase] in Hm; [discriminate|].
+    destruct (expr_eq_dec k e) as [->|Hke]; [exact He|].
+    destruct (lookup c k) as [w|] eqn:El; [|discriminate].
+    assert (El' : lookup (update c e v) k = Some w) by (rewrite lookup_update_other; assumption).
+    destruct (expr_eqb k w) eqn:E.
+    - apply expr_eqb_eq in E. subst w. apply E1. exists k. apply chases_self. exact El'.
+    - destruct (E3 _ _ El') as [H|H]; [|exact H].
+      destruct (IH _ Hm) as [f' Hf']. exists f'.
+      eapply chases_step; [exact H|apply not_eq_sym; apply eqb_false_neq; exact E|exact Hf']. }
+  split; [exact R|split].
+  - intros k Hp. destruct (expr_eq_dec k e) as [->|Hke]; [exfalso; eapply resolved_not_pending; eauto|].
+    pose proof (E2 _ Hp) as [[w Hw] _]. rewrite lookup_update_other in Hw by assumption.
+    assert (Hk : haskey c k) by (exists w; exact Hw).
+    destruct (wf_cases _ _ Hwf Hk) as [H|H]; [|exact H].
+    exfalso. eapply resolved_not_pending; [apply R; exact H|exact Hp].
+  - intros k w Hl. destruct (expr_eq_dec k e) as [->|Hke]; [right; exact He|].
+    apply E3. rewrite lookup_update_other; assumption.
+Qed.
+
+Lemma linked_update c e v :
+  linked c -> (lookup c e <> Some e \/ v = e) ->
+  (v = e \/ lookup (update c e v) v = Some v \/ desc e v) -> linked (update c e v).
+Proof.
+  intros Hlk He Hv k w Hl. destruct (expr_eq_dec k e) as [->|Hke].
+  - rewrite lookup_update_same in Hl. inversion Hl; subst w. exact Hv.
+  - rewrite lookup_update_other in Hl by assumption.
+    destruct (Hlk _ _ Hl) as [H|[H|H]]; [left; exact H| |right; right; exact H].
+    right; left. destruct (expr_eq_dec w e) as [->|Hwe].
+    + destruct He as [He | ->]; [contradiction|]. apply lookup_update_same.
+    + rewrite lookup_update_other; assumption.
+Qed.
+
+(** a chain of [c] is unchanged by the write unless it meets [e] *)
+Lemma chase_update_or_reach c e v : forall m k o,
+  chase m c k = Some o -> chases (update c e v) k o \/ reach c k e.
+Proof.
+  induction m as [|m IH]; intros k o Hm; cbn [chase] in Hm; [discriminate|].
+  destruct (expr_eq_dec k e) as [->|Hke]; [right; constructor|].
+  destruct (lookup c k) as [w|] eqn:El.
+  - destruct (expr_eqb k w) eqn:E.
+    + apply expr_eqb_eq in E. subst w. inversion Hm; subst o. left. apply chases_self.
+      rewrite lookup_update_other; assumption.
+    + assert (Hne : w <> k) by (apply not_eq_sym; apply eqb_false_neq; exact E).
+      destruct (IH _ _ Hm) as [H|H].
+      * left. eapply chases_step; [rewrite lookup_update_other; eassumption|exact Hne|exact H].
+      * right. eapply reach_step; eauto.
+  - inversion Hm; subst o. left. apply chases_nokey. rewrite lookup_update_other; assumption.
+Qed.
+
+Lemma ok_update c e v :
+  ok c -> same_nf e v -> (v = e -> NF e e) ->
+  (v = e \/ exists o, chases (update c e v) v o) ->
+  (lookup c e <> Some e \/ v = e) ->
+  (v = e \/ lookup (update c e v) v = Some v \/ desc e v) ->
+  ok (update c e v).
+Proof.
+  intros (Hinv & Hwf & Hlk) Hs Hself Hv He Hd. split; [|split].
+  - apply cache_inv_update; assumption.
+  - apply wf_update; assumption.
+  - apply linked_update; assumption.
+Qed.
+
+(** ** [get_fixed_point] returns with enough fuel *)
+Lemma chase_update_final c v v' fin :
+  lookup c v = Some v' -> v' <> v -> chases c v (Some fin) ->
+  forall m k f, chase m c k = Some (Some f) -> chase m (update c v fin) k = Some (Some f).
+Proof.
+  intros Hl Hne Hv.
+  assert (Hfin : lookup c fin = Some fin) by (destruct Hv as [m0 Hm0]; eapply chase_final; exact Hm0).
+  assert (Hvf : v <> fin) by (intros ->; congruence).
+  induction m as [|m IH]; intros k f Hm; [discriminate|].
+  cbn [chase] in Hm |- *.
+  destruct (expr_eq_dec k v) as [->|Hkv].
+  - rewrite lookup_update_same, (eqb_neq _ _ Hvf).
+    assert (f = fin).
+    { assert (A : chases c v (Some f)) by (exists (S m); cbn [chase]; exact Hm).
+      pose proof (chases_det _ _ _ _ A Hv) as B. congruence. }
+    subst f. rewrite Hl, eqb_neq in Hm by congruence.
+    destruct m as [|m]; [discriminate|]. cbn [chase].
+    rewrite lookup_update_other, Hfin, expr_eqb_refl by congruence. reflexivity.
+  - rewrite lookup_update_other by assumption.
+    destruct (lookup c k) as [w|]; [|discriminate].
+    destruct (expr_eqb k w); [exact Hm|]. apply IH. exact Hm.
+Qed.
+
+Lemma compress_spec : forall m c v fin, ok c -> chase m c v = Some (Some fin) ->
+  exists c1, compress m c v fin = GSome c1 fin /\ ext c c1 /\ ok c1.
+Proof.
+  induction m as [|m IH]; intros c v fin Hok Hm; [discriminate|].
+  pose proof Hm as Hm0. cbn [chase] in Hm.
+  destruct (lookup c v) as [v'|] eqn:El; [|discriminate].
+  destruct (expr_eqb v v') eqn:E.
+  - apply expr_eqb_eq in E. subst v'. inversion Hm; subst fin. exists c.
+    cbn [compress]. rewrite expr_eqb_refl. split; [reflexivity|split; [apply ext_refl|exact Hok]].
+  - assert (Hne : v' <> v) by (apply not_eq_sym; apply eqb_false_neq; exact E).
+    assert (Hfin : lookup c fin = Some fin) by (eapply chase_final; exact Hm).
+    assert (Hvf : v <> fin) by (intros ->; congruence).
+    assert (Hv : chases c v (Some fin)) by (exists (S m); exact Hm0).
+    set (c2 := update c v fin).
+    assert (Hfin2 : lookup c2 fin = Some fin) by (unfold c2; rewrite lookup_update_other; congruence).
+    assert (Hok2 : ok c2).
+    { destruct (chase_sound _ _ _ _ (proj1 Hok) Hm0) as [Hs _].
+      apply ok_update; try assumption.
+      - intros ->. congruence.
+      - right. eexists. apply chases_self. exact Hfin2.
+      - left. congruence.
+      - right; left. exact Hfin2. }
+    assert (Hext : ext c c2).
+    { apply (ext_via_update c v fin c2); [exact (proj1 (proj2 Hok))|apply ext_refl|].
+      exists fin. eapply chases_step; [apply lookup_update_same|congruence|apply chases_self; exact Hfin2]. }
+    destruct (IH c2 v' fin Hok2 (chase_update_final _ _ _ _ El Hne Hv _ _ _ Hm)) as (c1 & Hc & He & Ho).
+    exists c1. cbn [compress]. rewrite (eqb_neq _ _ Hvf), El. fold c2.
+    split; [exact Hc|split; [eapply ext_trans; eassumption|exact Ho]].
+Qed.
+
+Definition gspec (c : cache) (k : expr) (G : gfp) : Prop :=
+  match G with
+  | GSome c1 fv => ext c c1 /\ ok c1 /\ chases c k (Some fv)
+  | GNone c1 => c1 = c /\ ~ resolved c k
+  | GFuel => False
+  end.
+
+Lemma gfp_spec c k : ok c ->
+  exists B G, (forall f, (B <= f)%nat -> get_fixed_point f c k = G) /\ gspec c k G.
+Proof.
+  intros Hok. destruct (proj1 (proj2 Hok) k) as [o [m Hm]]. exists m.
+  unfold get_fixed_point.
+  destruct (lookup c k) as [v0|] eqn:El.
+  - destruct (expr_eqb k v0) eqn:E.
+    + apply expr_eqb_eq in E. subst v0. exists (GSome c k). split; [reflexivity|].
+      split; [apply ext_refl|split; [exact Hok|apply chases_self; exact El]].
+    + destruct o as [fin|].
+      * destruct (compress_spec _ _ _ _ Hok Hm) as (c1 & Hc & He & Ho).
+        exists (GSome c1 fin). split.
+        -- intros f Hf. rewrite (chase_mono _ _ _ _ Hm f Hf).
+           apply (compress_mono _ _ _ _ _ Hc ltac:(discriminate) f Hf).
+        -- split; [exact He|split; [exact Ho|exists m; exact Hm]].
+      * exists (GNone c). split.
+        -- intros f Hf. rewrite (chase_mono _ _ _ _ Hm f Hf). reflexivity.
+        -- split; [reflexivity|]. intros [f Hf].
+           assert (A : chases c k None) by (exists m; exact Hm).
+           pose proof (chases_det _ _ _ _ A Hf). discriminate.
+  - exists (GNone c). split; [reflexivity|]. split; [reflexivity|].
+    intros [f Hf]. pose proof (chases_det _ _ _ _ (chases_nokey _ _ El) Hf). discriminate.
+Qed.
+
+(** ** the children loop returns with enough fuel *)
+Lemma visit_spec : forall chs c, ok c ->
+  exists B c1 cs chg miss,
+    (forall f, (B <= f)%nat -> visit f c chs = VOk c1 cs chg miss) /\
+    ext c c1 /\ ok c1 /\
+    (forall ch, In ch chs -> resolved c1 ch \/ In ch miss) /\
+    (forall x, In x miss -> In x chs) /\
+    ((forall ch, In ch chs -> resolved c ch) -> miss = []).
+Proof.
+  induction chs as [|ch rest IH]; intros c Hok.
+  - exists O, c, [], false, []. split; [reflexivity|].
+    split; [apply ext_refl|split; [exact Hok|]]. split; [intros ? []|split; [intros ? []|reflexivity]].
+  - destruct (gfp_spec c ch Hok) as (B1 & G & HG & Hspec).
+    destruct G as [c1 v|c1|]; cbn [gspec] in Hspec; [| |contradiction].
+    + destruct Hspec as (He1 & Hok1 & Hv).
+      destruct (IH c1 Hok1) as (B2 & c2 & cs & chg & miss & HV & He2 & Hok2 & Hres & Hsub & Hall).
+      exists (Nat.max B1 B2), c2, (v :: cs), (negb (expr_eqb v ch) || chg), miss.
+      split; [|split; [|split; [|split; [|split]]]].
+      * intros f Hf. cbn [visit]. rewrite (HG f) by lia. rewrite (HV f) by lia. reflexivity.
+      * eapply ext_trans; eassumption.
+      * exact Hok2.
+      * intros x [<-|Hx]; [|apply Hres; exact Hx].
+        left. apply (proj1 He2). apply (proj1 He1). exists v. exact Hv.
+      * intros x Hx. right. apply Hsub. exact Hx.
+      * intros Hr. apply Hall. intros x Hx. apply (proj1 He1). apply Hr. right. exact Hx.
+    + destruct Hspec as (-> & Hnr).
+      destruct (IH c Hok) as (B2 & c2 & cs & chg & miss & HV & He2 & Hok2 & Hres & Hsub & Hall).
+      exists (Nat.max B1 B2), c2, cs, chg, (ch :: miss).
+      split; [|split; [|split; [|split; [|split]]]].
+      * intros f Hf. cbn [visit]. rewrite (HG f) by lia. rewrite (HV f) by lia. reflexivity.
+      * exact He2.
+      * exact Hok2.
+      * intros x [<-|Hx]; [right; left; reflexivity|].
+        destruct (Hres _ Hx) as [H|H]; [left; exact H|right; right; exact H].
+      * intros x [<-|Hx]; [left; reflexivity|right; apply Hsub; exact Hx].
+      * intros Hr. exfalso. apply Hnr. apply Hr. left. reflexivity.
+Qed.
